@@ -79,8 +79,9 @@ ASSUMPTIONS = [
     "an absent cache file after a normal start is a cold cache (recorded, not judged); lock discipline (cache files "
     "opened while a cache lock is held) is recorded per open as cache_file_opens_* and not judged - the property is "
     "about outcomes",
-    "'stale' = the data folder changed after the cache was written: mtime bump, same-size content edit, a cached "
-    "file removed; changes of the data folder WHILE processes run are out of scope",
+    "'stale' = a data folder (standard, restricted-data, add-ons) changed after the cache was written: mtime bump (7 s, or "
+    "0.4 s inside the same second), same-size content edit, a cached file removed; an edit that leaves size AND nanosecond "
+    "modification time unchanged is not generated; changes of the data folder WHILE processes run are out of scope",
     "a valid pickle of the wrong type is treated as one more damaged state (DESIGN.md C18); it cannot be produced by a kill",
 ]
 REQUIRED_COUNTERS = ["crash_points", "prefixes_in_process", "prefixes_real", "schedules", "children_judged", "folder_checks", "midlife_children"]
